@@ -124,7 +124,7 @@ def _target_names(t):
 
 
 class _Walker:
-    def __init__(self, program, module, fname, backend, shared, param_types=()):
+    def __init__(self, program, module, fname, backend, shared, param_types=(), level=2):
         self.param_types = list(param_types)
         self.fi = program.get_function('%s.%s' % (module, fname))
         self.ev = Evaluator(program, backend, summaries=_summaries_for(program, module, fname, shared))
@@ -135,7 +135,8 @@ class _Walker:
         # that end in ''.join become string accumulators
         mi = program.get_module(module)
         helpers = {n: f.node for n, f in mi.functions.items() if n != fname and n not in shared and isinstance(f.node, ast.FunctionDef)}
-        self.node, self.notes = astnorm.normalise(self.fi.node, helpers)
+        # level 0: the source as it is; 1: helpers spliced in; 2: and list accumulators as strings
+        self.node, self.notes = astnorm.normalise(self.fi.node, helpers, level)
 
     def run(self):
         env = {}
@@ -234,8 +235,8 @@ def param_types_of(fi):
     return out
 
 
-def describe(program, module, fname, backend='ecdsa', shared=(), param_types=()):
-    w = _Walker(program, module, fname, backend, set(shared), param_types)
+def describe(program, module, fname, backend='ecdsa', shared=(), param_types=(), level=2):
+    w = _Walker(program, module, fname, backend, set(shared), param_types, level)
     fi = w.fi
     return fi, w.run(), [len(fi.params), sorted(ast.unparse(v) for v in fi.defaults.values())]
 
@@ -243,8 +244,28 @@ def describe(program, module, fname, backend='ecdsa', shared=(), param_types=())
 def compare(ob, repo_prog, ref_prog, module, fname, same_term, backend='ecdsa'):
     shared = set(repo_prog.get_module(module).functions) & set(ref_prog.get_module(module).functions)
     pt = param_types_of(repo_prog.get_function('%s.%s' % (module, fname)))
-    fi, a, sig_a = describe(repo_prog, module, fname, backend, shared, pt)
-    _, b, sig_b = describe(ref_prog, module, fname, backend, shared, pt)
+    # the source normal forms (sa/astnorm.py) are applied only as far as needed: the first pair of normalisation levels
+    # (candidate, reference) under which both sides have the same segment / loop structure is compared
+    fi = a = b = sig_a = sig_b = None
+    tried = {}
+    for la, lb in ((0, 0), (1, 1), (2, 2), (2, 0), (0, 2), (1, 0), (2, 1)):
+        try:
+            if ('a', la) not in tried:
+                tried[('a', la)] = describe(repo_prog, module, fname, backend, shared, pt, la)
+            if ('b', lb) not in tried:
+                tried[('b', lb)] = describe(ref_prog, module, fname, backend, shared, pt, lb)
+        except AnalysisError:
+            continue
+        fa, ra, sa_ = tried[('a', la)]
+        _fb, rb, sb_ = tried[('b', lb)]
+        if fi is None:
+            fi, a, b, sig_a, sig_b = fa, ra, rb, sa_, sb_
+        if _shape(ra) == _shape(rb):
+            fi, a, b, sig_a, sig_b = fa, ra, rb, sa_, sb_
+            break
+    if fi is None:
+        fi, a, sig_a = describe(repo_prog, module, fname, backend, shared, pt)
+        _, b, sig_b = describe(ref_prog, module, fname, backend, shared, pt)
     where = fi.where
     ob.require(sig_a == sig_b, '%s: number of parameters and default values equal the reference' % fname, where,
                expected=sig_b, found=sig_a)
@@ -262,6 +283,16 @@ def compare(ob, repo_prog, ref_prog, module, fname, same_term, backend='ecdsa'):
         return same_term(ob_, canon(found) if found is not None else None, canon(expected) if expected is not None else None,
                          what, where_, vocab=vocab)
     _cmp_recs(ob, a, b, fname, where, st)
+
+
+def _shape(recs):
+    out = []
+    for r in recs:
+        if r[0] == 'seq':
+            out.append('seq')
+        else:
+            out.append(('loop', r[1][0], len(r[2]), tuple(_kind(x) for x in r[2]), _shape(r[3]), _shape(r[5])))
+    return out
 
 
 def _minbytes(t):
